@@ -9,7 +9,7 @@ What is proved for all inputs: the integer-root oracles are right (so the verdic
 each generated case is sound), the specification `specSqrt` is the half-even rounding of the real
 square root stated with integer squares, the special cases, and termination of Sqrt's
 precision-doubling loop.  What is NOT proved: that the Newton iterates are accurate enough — and for
-Sqrt that is false on the current tree (double rounding, DESIGN finding F2).
+Sqrt the final decision is an exact comparison of squares (Props/C11Settle.lean), which is right whenever the truncated iterate brackets the root.
 -/
 namespace Apd.Props
 open Apd Apd.Oracle Apd.C11L
